@@ -136,6 +136,14 @@ def connect_edges(net, edges, order=None, assign="select_edges"):
     from jaxley.connect import connect
 
     order = list(range(len(edges))) if order is None else list(order)
+    if assign == "interleaved":
+        # set every synapse's parameters right after creating it, BEFORE the next connect() call
+        for gi, k in enumerate(order):
+            e = edges[k]
+            connect(net.select(nodes=[int(e["pre"])]), net.select(nodes=[int(e["post"])]), make_syn(e["type"]))
+            for key, val in {**e["params"], **e["states"]}.items():
+                net.select(edges=[gi]).set(f"{e['type']}_{key}", float(val))
+        return order
     for k in order:
         e = edges[k]
         connect(net.select(nodes=[int(e["pre"])]), net.select(nodes=[int(e["post"])]), make_syn(e["type"]))
